@@ -446,7 +446,7 @@ def prepare(prop_files, need_race=False, thorough=False):
     if need_race:
         build_harness(race=True)
     changed = regen_tables(vh)
-    ok, mlog = coq_make()
+    ok, mlog = coq_make(targets=[f[:-2] + ".vo" for f in prop_files])
     proof = {"broken": [], "trusted_extra": []}
     prop_file = prop_files[0]
     files = cone(prop_files)
